@@ -148,9 +148,9 @@ class XmlData(XmlModifier):
                 parent_elt.append(value)
             else:
                 if len(parent_elt) == 0:
-                    parent_elt.text = prot.to_bytes(cls.type, value)
+                    parent_elt.text = prot.to_unicode(cls.type, value)
                 else:
-                    parent_elt[-1].tail = prot.to_bytes(cls.type, value)
+                    parent_elt[-1].tail = prot.to_unicode(cls.type, value)
 
     @classmethod
     def get_type_name(cls):
